@@ -149,9 +149,254 @@ class RetTemp(ast.NodeTransformer):
         return node
 
 
+def _leaves(stmts):
+    if not stmts:
+        return False
+    l = stmts[-1]
+    if isinstance(l, (ast.Return, ast.Raise, ast.Continue, ast.Break)):
+        return True
+    if isinstance(l, ast.If) and l.orelse:
+        return _leaves(l.body) and _leaves(l.orelse)
+    return False
+
+
+class GuardToElse(ast.NodeTransformer):
+    """if c: A(leaves) ; rest   ->   if c: A else: rest"""
+    def generic_visit(self, node):
+        super().generic_visit(node)
+        for f in ('body', 'orelse', 'finalbody'):
+            b = getattr(node, f, None)
+            if isinstance(b, list) and b and isinstance(b[0], ast.stmt):
+                for i, st in enumerate(b):
+                    if isinstance(st, ast.If) and not st.orelse and _leaves(st.body) and i + 1 < len(b):
+                        st.orelse = b[i + 1:]
+                        setattr(node, f, b[:i + 1])
+                        break
+        return node
+
+
+class HoistArgs(ast.NodeTransformer):
+    """f(.., K(..), ..) / f(k={..}) as a whole statement -> t = K(..); f(.., t, ..)  for the first
+    constructor-like argument when everything evaluated before it is a plain load."""
+    n = 0
+
+    def _pure(self, e):
+        return isinstance(e, (ast.Name, ast.Constant)) or (isinstance(e, ast.Attribute) and self._pure(e.value))
+
+    def _ctor(self, e):
+        return isinstance(e, ast.Dict) or (isinstance(e, ast.Call) and isinstance(e.func, ast.Name) and e.func.id[:1].isupper()) or \
+            (isinstance(e, ast.Call) and isinstance(e.func, ast.Attribute) and e.func.attr == 'submit')
+
+    def _hoist(self, call):
+        if not isinstance(call, ast.Call) or not self._pure(call.func):
+            return None
+        for i, a in enumerate(call.args):
+            if self._ctor(a):
+                HoistArgs.n += 1
+                nm = f'hoisted_{HoistArgs.n}'
+                call.args[i] = ast.Name(id=nm, ctx=ast.Load())
+                return nm, a
+            if not self._pure(a):
+                return None
+        for k in call.keywords:
+            if k.arg is not None and self._ctor(k.value):
+                HoistArgs.n += 1
+                nm = f'hoisted_{HoistArgs.n}'
+                v = k.value
+                k.value = ast.Name(id=nm, ctx=ast.Load())
+                return nm, v
+            if not self._pure(k.value):
+                return None
+        return None
+
+    def _blk(self, stmts):
+        out = []
+        for s in stmts:
+            pre = []
+            call = s.value if isinstance(s, (ast.Expr, ast.Assign, ast.Return)) and isinstance(getattr(s, 'value', None), ast.Call) else None
+            for _ in range(4):
+                if call is None:
+                    break
+                h = self._hoist(call)
+                if not h:
+                    break
+                pre.insert(0, ast.Assign(targets=[ast.Name(id=h[0], ctx=ast.Store())], value=h[1]))
+                call = h[1] if isinstance(h[1], ast.Call) else None
+            out.extend(pre)
+            out.append(s)
+        return out
+
+    def generic_visit(self, node):
+        super().generic_visit(node)
+        for f in ('body', 'orelse', 'finalbody'):
+            b = getattr(node, f, None)
+            if isinstance(b, list) and b and isinstance(b[0], ast.stmt):
+                setattr(node, f, self._blk(b))
+        return node
+
+
+class AttrRename(ast.NodeTransformer):
+    """self._x -> self._x_rn for every private (single underscore) attribute stored through self in the package"""
+    names = set()
+
+    def visit_Attribute(self, node):
+        self.generic_visit(node)
+        if node.attr in AttrRename.names:
+            node.attr = node.attr + '_rn'
+        return node
+
+
+class DictCall(ast.NodeTransformer):
+    """{'a': x, ...} with identifier keys -> dict(a=x, ...)"""
+    def visit_Dict(self, node):
+        self.generic_visit(node)
+        if node.keys and all(isinstance(k, ast.Constant) and isinstance(k.value, str) and k.value.isidentifier() and k.value not in ('self',) for k in node.keys):
+            import keyword
+            if not any(keyword.iskeyword(k.value) for k in node.keys):
+                return ast.Call(func=ast.Name(id='dict', ctx=ast.Load()), args=[], keywords=[ast.keyword(arg=k.value, value=v) for k, v in zip(node.keys, node.values)])
+        return node
+
+
+class LoopToComp(ast.NodeTransformer):
+    """x = [] ; for t in it: x.append(e)   ->   x = [e for t in it]      (x not otherwise mentioned in the loop)"""
+    def generic_visit(self, node):
+        super().generic_visit(node)
+        for f in ('body', 'orelse', 'finalbody'):
+            b = getattr(node, f, None)
+            if isinstance(b, list) and b and isinstance(b[0], ast.stmt):
+                out, i = [], 0
+                while i < len(b):
+                    s, nxt = b[i], b[i + 1] if i + 1 < len(b) else None
+                    if isinstance(s, ast.Assign) and len(s.targets) == 1 and isinstance(s.targets[0], ast.Name) and isinstance(s.value, ast.List) and not s.value.elts \
+                            and isinstance(nxt, ast.For) and not nxt.orelse and len(nxt.body) == 1 and isinstance(nxt.body[0], ast.Expr) \
+                            and isinstance(nxt.body[0].value, ast.Call) and ast.unparse(nxt.body[0].value.func) == f'{s.targets[0].id}.append' \
+                            and len(nxt.body[0].value.args) == 1 and s.targets[0].id not in {n.id for n in ast.walk(nxt.body[0].value.args[0]) if isinstance(n, ast.Name)} \
+                            and s.targets[0].id not in {n.id for n in ast.walk(nxt.iter) if isinstance(n, ast.Name)}:
+                        tgt = copy.deepcopy(nxt.target)
+                        for n in ast.walk(tgt):
+                            if hasattr(n, 'ctx'):
+                                n.ctx = ast.Store()
+                        out.append(ast.Assign(targets=s.targets, value=ast.ListComp(elt=nxt.body[0].value.args[0],
+                                   generators=[ast.comprehension(target=tgt, iter=nxt.iter, ifs=[], is_async=0)])))
+                        i += 2
+                        continue
+                    out.append(s)
+                    i += 1
+                setattr(node, f, out)
+        return node
+
+
+class ExtractTail(ast.NodeTransformer):
+    """method(self, ..): S1..Sk..Sn  ->  S1..Sk ; return self._extracted_<m>(v..)  with the tail Sk+1..Sn moved
+    to a new private method taking the locals it reads (methods with >= 4 top-level statements; tail = last two
+    statements; not for generators / tails using nonlocal flow)."""
+    def visit_ClassDef(self, node):
+        self.generic_visit(node)
+        new = []
+        for m in list(node.body):
+            if not isinstance(m, ast.FunctionDef) or m.decorator_list or m.name.startswith('__') or len(m.body) < 4:
+                continue
+            if not m.args.args or m.args.args[0].arg != 'self' or m.args.vararg or m.args.kwarg:
+                continue
+            if any(isinstance(n, (ast.Yield, ast.YieldFrom, ast.Await, ast.Nonlocal, ast.Global)) for n in ast.walk(m)):
+                continue
+            if any(isinstance(n, (ast.FunctionDef, ast.Lambda, ast.ClassDef)) and n is not m for n in ast.walk(m)):
+                continue
+            tail = m.body[-2:]
+            head = m.body[:-2]
+            if any(isinstance(n, (ast.Break, ast.Continue)) for s in tail for n in ast.walk(s)):
+                continue
+            if isinstance(head[0], ast.Expr) and isinstance(head[0].value, ast.Constant) and len(head) < 2:
+                continue
+            assigned = {n.id for s in head for n in ast.walk(s) if isinstance(n, ast.Name) and isinstance(n.ctx, ast.Store)}
+            assigned |= {n.name for s in head for n in ast.walk(s) if isinstance(n, ast.ExceptHandler) and n.name}
+            params = {a.arg for a in m.args.args[1:] + m.args.kwonlyargs}
+            reads = []
+            for s in tail:
+                for n in ast.walk(s):
+                    if isinstance(n, ast.Name) and isinstance(n.ctx, ast.Load) and (n.id in assigned or n.id in params) and n.id not in reads:
+                        reads.append(n.id)
+            # names the tail stores and the head also defined would be fine (tail is last); augmented stores need the value
+            for s in tail:
+                for n in ast.walk(s):
+                    if isinstance(n, ast.AugAssign) and isinstance(n.target, ast.Name) and n.target.id not in reads and (n.target.id in assigned or n.target.id in params):
+                        reads.append(n.target.id)
+            hname = f'_extracted_{node.name.lower()}_{m.name.strip("_")}'
+            helper = ast.FunctionDef(name=hname, args=ast.arguments(posonlyargs=[], args=[ast.arg(arg='self')] + [ast.arg(arg=r) for r in reads],
+                                     kwonlyargs=[], kw_defaults=[], defaults=[]), body=tail, decorator_list=[], type_params=[])
+            call = ast.Call(func=ast.Attribute(value=ast.Name(id='self', ctx=ast.Load()), attr=hname, ctx=ast.Load()),
+                            args=[ast.Name(id=r, ctx=ast.Load()) for r in reads], keywords=[])
+            m.body = head + [ast.Return(value=call)]
+            new.append(helper)
+        node.body = node.body + new
+        return node
+
+
+class ExtractHead(ast.NodeTransformer):
+    """method(self, ..): S1 S2 S3..Sn  ->  a, b = self._extracted_head_<m>(p..) ; S3..Sn  with S1 S2 moved to a new
+    private method returning the locals they define that are used later (methods with >= 4 statements whose first two
+    statements (after the docstring) are plain assignments / expression statements)."""
+    def visit_ClassDef(self, node):
+        self.generic_visit(node)
+        new = []
+        for m in list(node.body):
+            if not isinstance(m, ast.FunctionDef) or m.decorator_list or m.name.startswith('__'):
+                continue
+            if not m.args.args or m.args.args[0].arg != 'self' or m.args.vararg or m.args.kwarg:
+                continue
+            if any(isinstance(n, (ast.Yield, ast.YieldFrom, ast.Await, ast.Nonlocal, ast.Global, ast.Lambda)) for n in ast.walk(m)):
+                continue
+            body = list(m.body)
+            doc = []
+            if body and isinstance(body[0], ast.Expr) and isinstance(body[0].value, ast.Constant) and isinstance(body[0].value.value, str):
+                doc, body = body[:1], body[1:]
+            if len(body) < 4 or not all(isinstance(s, (ast.Assign, ast.Expr, ast.AugAssign)) for s in body[:2]):
+                continue
+            head, rest = body[:2], body[2:]
+            if any(not isinstance(t, ast.Name) for s in head if isinstance(s, ast.Assign) for t in s.targets):
+                continue
+            defined = []
+            for s in head:
+                for n in ast.walk(s):
+                    if isinstance(n, ast.Name) and isinstance(n.ctx, ast.Store) and n.id not in defined:
+                        defined.append(n.id)
+            params = [a.arg for a in m.args.args[1:] + m.args.kwonlyargs]
+            if any(d in params for d in defined):
+                continue
+            reads = []
+            for s in head:
+                for n in ast.walk(s):
+                    if isinstance(n, ast.Name) and isinstance(n.ctx, ast.Load) and n.id in params and n.id not in reads:
+                        reads.append(n.id)
+            later = {n.id for s in rest for n in ast.walk(s) if isinstance(n, ast.Name)}
+            outs = [d for d in defined if d in later]
+            hname = f'_extracted_head_{node.name.lower()}_{m.name.strip("_")}'
+            hbody = list(head)
+            if outs:
+                hbody.append(ast.Return(value=ast.Name(id=outs[0], ctx=ast.Load()) if len(outs) == 1 else ast.Tuple(elts=[ast.Name(id=o, ctx=ast.Load()) for o in outs], ctx=ast.Load())))
+            helper = ast.FunctionDef(name=hname, args=ast.arguments(posonlyargs=[], args=[ast.arg(arg='self')] + [ast.arg(arg=r) for r in reads],
+                                     kwonlyargs=[], kw_defaults=[], defaults=[]), body=hbody, decorator_list=[], type_params=[])
+            call = ast.Call(func=ast.Attribute(value=ast.Name(id='self', ctx=ast.Load()), attr=hname, ctx=ast.Load()),
+                            args=[ast.Name(id=r, ctx=ast.Load()) for r in reads], keywords=[])
+            if not outs:
+                st = ast.Expr(value=call)
+            elif len(outs) == 1:
+                st = ast.Assign(targets=[ast.Name(id=outs[0], ctx=ast.Store())], value=call)
+            else:
+                st = ast.Assign(targets=[ast.Tuple(elts=[ast.Name(id=o, ctx=ast.Store()) for o in outs], ctx=ast.Store())], value=call)
+            m.body = doc + [st] + rest
+            new.append(helper)
+        node.body = node.body + new
+        return node
+
+
 TRANSFORMS = {'T1': ('alpha-rename locals', Alpha), 'T2': ('if/else swap', IfSwap), 'T3': ('insert pass', PassIns),
               'T4': ('reverse keywords', KwRev), 'T5': ('expand augmented assignment', AugExp), 'T6': ('expand with-lock', LockExp),
-              'T7': ('flip comparison operands', CmpFlip), 'T8': ('return through a temporary', RetTemp)}
+              'T7': ('flip comparison operands', CmpFlip), 'T8': ('return through a temporary', RetTemp),
+              'T9': ('guard clause -> if/else', GuardToElse), 'T10': ('hoist constructor-like arguments into temporaries', HoistArgs),
+              'T11': ('rename private attributes', AttrRename), 'T12': ('dict display -> dict() call', DictCall),
+              'T13': ('append loop -> list comprehension', LoopToComp), 'T14': ('extract the tail of every method into a new helper', ExtractTail),
+              'T15': ('extract the first two statements of every method into a new helper', ExtractHead)}
 
 
 def transform(src, cls):
@@ -181,7 +426,11 @@ def main():
         args = [a for a in args if a not in props]
     rules.load_all()
     base = read_sources('/repo')
-    ts = args or sorted(TRANSFORMS)
+    from s3tlint.rename import class_attrs
+    for src in base.values():
+        for cls in [n for n in ast.walk(ast.parse(src)) if isinstance(n, ast.ClassDef)]:
+            AttrRename.names |= {a for a in class_attrs(cls)}
+    ts = args or sorted(TRANSFORMS, key=lambda t: int(t[1:]))
     bad = 0
     for t in ts:
         name, cls = TRANSFORMS[t]
